@@ -4,6 +4,7 @@ import (
 	"fmt"
 	"go/token"
 	"go/types"
+	"strings"
 
 	"golang.org/x/tools/go/ssa"
 )
@@ -384,6 +385,113 @@ func init() {
 		return term(res, resTy)
 	})
 	stdModsets["maps.Clone"] = func(u *Unit) *modset { return &modset{keys: map[string]bool{}, ghosts: map[string]bool{}} }
+	// ---------------- output streams (ghost text) ----------------
+	outModset := func(u *Unit) *modset {
+		u.ghostSort["out"] = "(Array Ref Str)"
+		return &modset{keys: map[string]bool{}, ghosts: map[string]bool{"out": true}}
+	}
+	appendOut := func(fr *Frame, st *State, w *Val, text string) {
+		u := fr.u
+		u.ghostSort["out"] = "(Array Ref Str)"
+		cur := u.ghostOf(st, "out")
+		ref := fr.refOf(w)
+		n := u.w.newConst("g:out", "(Array Ref Str)")
+		u.fact(eq(n, fmt.Sprintf("(store %s %s (strcat (select %s %s) %s))", cur, ref, cur, ref, text)))
+		st.ghost["out"] = n
+	}
+	reg("fmt.Fprintf", "fmt.Fprintf(w, format, args...): appends sprintf(format, args) to the ghost text written(w); the byte count and error are unconstrained; the writer's own memory is not modelled", func(fr *Frame, st *State, callee *ssa.Function, args []*Val, pos token.Pos, resTy types.Type) *Val {
+		appendOut(fr, st, args[0], fr.u.sprintfTerm(fr, st, args[1], args[2]))
+		return fr.havocResults(st, resTy, "fprintf")
+	})
+	stdModsets["fmt.Fprintf"] = outModset
+	reg("fmt.Fprint", "fmt.Fprint(w, s) with one string operand appends s to the ghost text written(w); other operand lists append an unconstrained text", func(fr *Frame, st *State, callee *ssa.Function, args []*Val, pos token.Pos, resTy types.Type) *Val {
+		u := fr.u
+		text := ""
+		if k, ok := u.sliceConstLen[args[1].T]; ok && k == 1 {
+			el := u.sliceElem(st, anyType, args[1].T, "0")
+			_, ub := u.w.boxFn("Str")
+			text = u.w.newConst("fprint", "Str")
+			u.fact(implies(eq(fmt.Sprintf("(ityp %s)", el), u.w.tag(tString)), eq(text, fmt.Sprintf("(%s (ival %s))", ub, el))))
+		} else {
+			text = u.w.newConst("fprint", "Str")
+		}
+		appendOut(fr, st, args[0], text)
+		return fr.havocResults(st, resTy, "fprint")
+	})
+	stdModsets["fmt.Fprint"] = outModset
+	reg("bufio.NewWriter", "bufio.NewWriter(w): a new writer; nothing has been written to it", func(fr *Frame, st *State, callee *ssa.Function, args []*Val, pos token.Pos, resTy types.Type) *Val {
+		u := fr.u
+		r := u.allocRef(st, "bufw")
+		u.ghostSort["out"] = "(Array Ref Str)"
+		u.fact(eq(fmt.Sprintf("(select %s %s)", u.ghostOf(st, "out"), r), u.w.strLit("")))
+		return term(r, resTy)
+	})
+	reg("(golang.org/x/text/cases.Caser).String", "cases.Caser.String(s): total; modelled as one uninterpreted function str_title of the string (the caser's configuration is not distinguished)", func(fr *Frame, st *State, callee *ssa.Function, args []*Val, pos token.Pos, resTy types.Type) *Val {
+		u := fr.u
+		return term(app(u.fn("str_title", []string{"Str"}, "Str"), args[1].T), tString)
+	})
+	// ---------------- sorting ----------------
+	sortStrModset := func(u *Unit) *modset {
+		return &modset{keys: map[string]bool{u.regA(tString): true}, ghosts: map[string]bool{}}
+	}
+	reg("sort.Strings", "sort.Strings(s): rewrites the elements of s in place (length unchanged). When s was filled by one append of the key per iteration of a complete range over a map m, the result holds sortedkey(m, 0..len(m)-1): the keys of m in strictly increasing order; for any other s the new contents are unconstrained", func(fr *Frame, st *State, callee *ssa.Function, args []*Val, pos token.Pos, resTy types.Type) *Val {
+		u := fr.u
+		s := args[0].T
+		hk := u.regA(tString)
+		if u.checkFrame {
+			fr.frameCheckRef(st, fmt.Sprintf("(sdata %s)", s), "sort", pos)
+		}
+		old := u.heapOf(st, hk)
+		arr := u.w.newConst("sorted", fmt.Sprintf("(Array Int %s)", "Str"))
+		data := fmt.Sprintf("(sdata %s)", s)
+		// cells outside the slice window keep their values
+		j := quote("q:sj")
+		u.qsorts[j] = "Int"
+		u.fact(fmt.Sprintf("(forall ((%s Int)) (=> (or (< %s (soff %s)) (>= %s (+ (soff %s) (slen %s)))) (= (select %s %s) (select (select %s %s) %s))))", j, j, s, j, s, s, arr, j, old, data, j))
+		st.heap[hk] = u.nameHeap(hk, fmt.Sprintf("(store %s %s %s)", old, data, arr))
+		if ei := u.enumTag[s]; ei != nil && fr.curInstr != nil && !(ei.fr == fr && ei.fr.loopBody[ei.h][fr.curInstr.Block()]) && ei.fr == fr {
+			skf := u.sortedKeyFn(ei.mt)
+			ml := ite(eq(ei.mapT, "nil"), "0", u.mapLen(st, ei.mt, ei.mapT))
+			u.fact(implies(st.pc, eq(fmt.Sprintf("(slen %s)", s), ml)))
+			u.fact(implies(st.pc, fmt.Sprintf("(forall ((%s Int)) (=> (and (<= 0 %s) (< %s (slen %s))) (= (select %s (+ (soff %s) %s)) (%s %s %s))))", j, j, j, s, arr, s, j, skf, ei.mapT, j)))
+			dom := u.mapDom(st, ei.mt, ei.mapT)
+			u.fact(implies(st.pc, fmt.Sprintf("(forall ((%s Int)) (=> (and (<= 0 %s) (< %s %s)) (select %s (%s %s %s))))", j, j, j, ml, dom, skf, ei.mapT, j)))
+			u.assume["a slice that starts empty and receives exactly one append of the key in each iteration of a complete range over a map enumerates the keys of that map, each once (recognised syntactically on the SSA of the loop)"] = true
+		}
+		delete(u.qsorts, j)
+		return &Val{K: vNone}
+	})
+	stdModsets["sort.Strings"] = sortStrModset
+	reg("sort.Slice", "sort.Slice(s, less): permutes s in place; the resulting order is unconstrained (it is a function of the elements only when less is a strict total order, which is not established)", func(fr *Frame, st *State, callee *ssa.Function, args []*Val, pos token.Pos, resTy types.Type) *Val {
+		u := fr.u
+		x := args[0].T
+		done := false
+		for key, t := range u.w.tagTypes {
+			if t == nil {
+				continue
+			}
+			if sl, ok := t.Underlying().(*types.Slice); ok && len(x) > 0 && containsTag(x, u.w.tags[key]) {
+				hk := u.regA(sl.Elem())
+				_, ub := u.w.boxFn("Slice")
+				fr.frameCheckRef(st, fmt.Sprintf("(sdata (%s (ival %s)))", ub, x), "sort", pos)
+				u.havocHeap(st, hk, true, nil)
+				done = true
+			}
+		}
+		if !done {
+			u.note("sort.Slice on a slice of unknown static type: effect not modelled")
+		}
+		return &Val{K: vNone}
+	})
+	stdModsets["sort.Slice"] = func(u *Unit) *modset {
+		ms := &modset{keys: map[string]bool{}, ghosts: map[string]bool{}}
+		for k := range u.heapSorts {
+			if strings.HasPrefix(k, "A:") {
+				ms.keys[k] = true
+			}
+		}
+		return ms
+	}
 	reg("sort.SliceStable", "sort.SliceStable: permutes the slice in place (contents of the backing array become unconstrained)", func(fr *Frame, st *State, callee *ssa.Function, args []*Val, pos token.Pos, resTy types.Type) *Val {
 		u := fr.u
 		// the slice is boxed in an interface; find its static type from the tag
